@@ -94,7 +94,8 @@ def selection_part(ck, tier):
         x = rng.uniform(-2, 2, size=(n, d))
         y = np.sin(x[:, 0]) * rng.uniform(0.5, 3) + 0.1 * rng.normal(size=n) + (x[:, -1] if d > 1 else 0)
         yerr = np.full(n, 0.1)
-        for opt in ("bfgs", "diffev") if case % 3 == 0 else ("bfgs",):
+        # "bfgs1": the multi-start optimiser restricted to ONE start, which by its definition is the centre of the bounds box
+        for opt in ("bfgs", "bfgs1", "diffev") if case % 3 == 0 else ("bfgs", "bfgs1"):
             for cv in (False, True):
                 kern = SquaredExponential if case % 2 == 0 else RationalQuadratic
                 mean = ConstantMean if case % 4 < 2 else LinearMean
@@ -102,7 +103,8 @@ def selection_part(ck, tier):
                 try:
                     with warnings.catch_warnings(), np.errstate(all="ignore"):
                         warnings.simplefilter("ignore")
-                        gp = GpRegressor(x=x if d > 1 else x[:, 0], y=y, y_err=yerr, kernel=kern, mean=mean, cross_val=cv, optimizer=opt)
+                        gp = GpRegressor(x=x if d > 1 else x[:, 0], y=y, y_err=yerr * (0.1 if opt == "bfgs1" else 1.0), kernel=kern, mean=mean,
+                                         cross_val=cv, optimizer="bfgs" if opt == "bfgs1" else opt, **({"n_starts": 1} if opt == "bfgs1" else {}))
                         hp = np.asarray(gp.hyperpars, dtype=float)
                         b = np.array(gp.hp_bounds, dtype=float)
                         centre = 0.5 * (b[:, 0] + b[:, 1])
@@ -114,7 +116,7 @@ def selection_part(ck, tier):
                 width = b[:, 1] - b[:, 0]
                 inb = bool(np.all(hp >= b[:, 0] - 1e-9 * width) and np.all(hp <= b[:, 1] + 1e-9 * width))
                 better = bool(s_res >= s_cen - 1e-9 * max(1.0, abs(s_cen)))
-                events.append({"opt": opt, "cv": cv, "inbounds": inb, "better": better})
+                events.append({"opt": "bfgs" if opt == "bfgs1" else opt, "cv": cv, "inbounds": inb, "better": better})
                 idents.append({"case": case, "n": n, "d": d, "optimizer": opt, "cross_val": cv, "kernel": kern.__name__, "mean": mean.__name__,
                                "hyperpars": hp.tolist(), "bounds": b.tolist(), "score": s_res, "score_at_centre": s_cen})
                 ck.case(("select", case, opt, cv))
